@@ -358,7 +358,7 @@ def run(unit):
             r.count('validated')
         if i % 3001 == 0 and objs:
             r.sample({'object': objs[-1][0]})
-        if n <= 4:
+        if n <= 4 or any(u[0] == 'quant' for u in absyn.subterms(t)):
             # name family: related names of several letters (item / it / tem: prefix, suffix, shared characters)
             RENAME.update({'a': 'item', 'b': 'it', 'i': 'tem'})
             try:
@@ -393,7 +393,7 @@ def replay(w):
 def describe(tier):
     b = bounds(tier)
     return {
-        'rule': f"every Bool/Num term with <= {b['nodes']} nodes over atoms x @a @a.f @b.f m.f 1 p @a.p xs @a.xs with + ** = < and implies not unary-minus abs len sum max int(bool), sets (1-3), ranges, indexing xs[..], inclusion, forall/exists binding a or i over arrays/sets/ranges: markers therefore occur in every child slot of every expression node kind; each accepted term is taken as expression (parser and API), predicate, event without alias / with alias a / zz, 3-wide event disjunction, pattern and property; plus 14 texts that put quantifiers and markers into slots the node bound does not reach (a quantifier inside another quantifier's domain, inside an index, a function argument, a set element; markers below several accessors; one name free and bound), every sub-object of which is queried; plus a family of 20 multi-event properties and a specification for scope/pattern/property/specification-level iterate() and aliases(). Every queried expression / predicate / event is then copied (replace_var_reference, replace_self_reference, negate, but) and the copy is queried too (call sequences of depth 2). Terms with <= 4 nodes are repeated with the one-letter names replaced by item / it / tem (prefix, suffix, shared characters; the single characters are queried too). Containers returned by external_references() / aliases() are modified by the harness and the query is repeated. A state = one real object queried; a transition = one group of query calls on it.",
+        'rule': f"every Bool/Num term with <= {b['nodes']} nodes over atoms x @a @a.f @b.f m.f 1 p @a.p xs @a.xs with + ** = < and implies not unary-minus abs len sum max int(bool), sets (1-3), ranges, indexing xs[..], inclusion, forall/exists binding a or i over arrays/sets/ranges: markers therefore occur in every child slot of every expression node kind; each accepted term is taken as expression (parser and API), predicate, event without alias / with alias a / zz, 3-wide event disjunction, pattern and property; plus 14 texts that put quantifiers and markers into slots the node bound does not reach (a quantifier inside another quantifier's domain, inside an index, a function argument, a set element; markers below several accessors; one name free and bound), every sub-object of which is queried; plus a family of 20 multi-event properties and a specification for scope/pattern/property/specification-level iterate() and aliases(). Every queried expression / predicate / event is then copied (replace_var_reference, replace_self_reference, negate, but) and the copy is queried too (call sequences of depth 2). Terms with <= 4 nodes and all terms with a quantifier are repeated with the one-letter names replaced by item / it / tem (prefix, suffix, shared characters; the single characters are queried too). Containers returned by external_references() / aliases() are modified by the harness and the query is repeated. A state = one real object queried; a transition = one group of query calls on it.",
         'bounds': b,
         'exhaustive': True,
         'assumptions': ['attrs.fields() order is declaration order; the generic walk treats every AST-valued field as a child'],
